@@ -293,11 +293,18 @@ def run(ctx):
                                    runs=[dict(id="r%d" % k, beh="ok") for k in range(1, n + 1)]))
     shared_ok = []
     for sc, rr in zip(shared, A.run_driver(ctx, shared, label="c05sharedsig")):
+        if not rr.get("crash") and (rr.get("res") or {}).get("follow_err"):
+            ctx.note_drift("shared-signal session not carried out as designed", dict(id=sc["id"], err=rr["res"]["follow_err"]))
+            continue
         out = C6.judge_session(ctx, sc, rr, what="shared signal channel")
         if out is None:
             continue
         ctx.count(sc["id"])
         if out.get("stuck"):
+            continue
+        if out.get("follow_err"):
+            # the driver could not set the scene (a loaded machine): no verdict from this session
+            ctx.note_drift("shared-signal session not carried out as designed", dict(id=sc["id"], err=out["follow_err"]))
             continue
         shared_ok.append((sc, out))
         bad = {r: e for r, e in out["results"].items() if not (e["st"] == "ok" and e.get("token_ok"))}
@@ -312,8 +319,16 @@ def run(ctx):
     # run's goroutine runs on, then the signal is sent - the second call returns the token of ITS signal
     reuse_sig = [dict(id="reusesig/cap%d" % cap, mode="reusesig", cap=cap, runs=[]) for cap in (0, 2)]
     for sc, rr in zip(reuse_sig, A.run_driver(ctx, reuse_sig, label="c05reusesig")):
+        if not rr.get("crash") and (rr.get("res") or {}).get("follow_err"):
+            # the driver could not set the scene (a loaded machine): no verdict from this session
+            ctx.note_drift("run-ID-reuse session not carried out as designed", dict(id=sc["id"], err=rr["res"]["follow_err"]))
+            continue
         out = C6.judge_session(ctx, sc, rr, what="run ID reused behind a late write")
         if out is None or out.get("stuck"):
+            continue
+        if out.get("follow_err"):
+            # the driver could not set the scene (a loaded machine): no verdict from this session
+            ctx.note_drift("run-ID-reuse session not carried out as designed", dict(id=sc["id"], err=out["follow_err"]))
             continue
         ctx.count(sc["id"])
         for which in ("first", "second"):
